@@ -178,7 +178,7 @@ func (g *G) emitHash(withEqual bool) {
 	fmt.Fprintf(q, "type FWH_%d struct{ F %s }\n", i, gt)
 	// hash of the one-field wrapper is 31*17 + field expression: the driver subtracts the constant
 	fmt.Fprintf(q, "func HashF_%d(a %s) uint64 { return deriveHashF_%d(&FWH_%d{a}) - 31*17 }\n", i, gt, i, i)
-	g.reg("hash", 1, fmt.Sprintf("s0 := rt.NewObs().Observe(reflect.ValueOf(&x).Elem())\n\t\th := %s.Hash_%d(x)\n\t\th2 := %s.Hash_%d(x)\n\t\tif h != h2 || s0 != rt.NewObs().Observe(reflect.ValueOf(&x).Elem()) {\n\t\t\treturn \"impure\"\n\t\t}\n\t\treturn rt.U64(h)", g.qn, i, g.qn, i))
+	g.reg("hash", 1, fmt.Sprintf("s0 := rt.NewObs().Observe(reflect.ValueOf(&x).Elem())\n\t\tsp0 := rt.SpareDigest(reflect.ValueOf(&x).Elem())\n\t\th := %s.Hash_%d(x)\n\t\th2 := %s.Hash_%d(x)\n\t\tif h != h2 || s0 != rt.NewObs().Observe(reflect.ValueOf(&x).Elem()) || sp0 != rt.SpareDigest(reflect.ValueOf(&x).Elem()) {\n\t\t\treturn \"impure\"\n\t\t}\n\t\treturn rt.U64(h)", g.qn, i, g.qn, i))
 	g.reg("hashf", 1, fmt.Sprintf("return rt.U64(%s.HashF_%d(x))", g.qn, i))
 	if withEqual {
 		g.reg("hasheq", 2, fmt.Sprintf("return rt.Bool(!%s.Equal_%d(x, y) || %s.Hash_%d(x) == %s.Hash_%d(y))", g.qn, i, g.qn, i, g.qn, i))
